@@ -383,7 +383,8 @@ class C09(Check):
     rule = ("(a) N in {2,3} concurrent fetches (optionally the last one submitted later), max_clients in {1,2}, "
             "connect_timeout 5 s / request_timeout 10 s on a virtual clock; at each quiescent point one enabled event "
             "{submit, connect i succeeds, connect i fails, response i arrives, peer closes i, earliest timer fires}; "
-            "exhaustive for N=2, deviation bound D for N=3; (b) full product status {301,302,303,307,308} x method "
+            "exhaustive for N=2, deviation bound 4 for N=3 in the quick tier and complete for N=3 in the thorough tier, "
+            "which adds N=4 with max_clients in {1,2,3} at deviation bound 5; (b) full product status {301,302,303,307,308} x method "
             "{GET,HEAD,POST,PUT} x Location {relative, same origin, other host, other port, other scheme, //other, "
             "userinfo@other, look-alike suffix host} x credentials {Authorization, Cookie, two Cookie lines, "
             "auth_username, URL userinfo, none} x max_redirects {0,1,2} x chain shape {one, two, cross-then-back, "
@@ -404,13 +405,19 @@ class C09(Check):
                 for late in (False, True):
                     for tpat in ("same", "last-short", "first-ct0"):
                         parts.append(("sched", n, mc, late, tpat))
+        if tier != "quick":
+            # four overlapping fetches: deviation-bounded (the N<=3 spaces are explored completely)
+            for mc in (1, 2, 3):
+                for late in (False, True):
+                    for tpat in ("same", "last-short", "first-ct0"):
+                        parts.append(("sched", 4, mc, late, tpat))
         parts += [("redir", i, 24) for i in range(24)]
         return parts
 
     def run_partition(self, part, tier, st):
         if part[0] == "sched":
             _, n, mc, late, tpat = part
-            bound = None if n == 2 else (4 if tier == "quick" else 7)
+            bound = 5 if n == 4 else (None if (n == 2 or tier != "quick") else 4)
 
             def on_exec(ch, o):
                 st.ev()
@@ -429,7 +436,10 @@ class C09(Check):
                                               max_execs=400000)
             if capped:
                 st.note("cap_hit")
-            st.setmax("deviation_bound_N3", bound or 0)
+            if bound is not None:
+                st.setmax("deviation_bound_N%d" % n, bound)
+            elif n == 3:
+                st.setmax("N3_complete", 1)
             if len(st.samples) < 1:
                 o = run_sched(devex.Chooser(), n, mc, late, tpat)
                 st.sample({"N": n, "max_clients": mc, "default_schedule": o["trace"], "results": o["results"]})
